@@ -18,6 +18,11 @@ type Pat struct {
 	Local string
 	Read  int  // tokens the handler reads: -1 = until EOF (and beyond)
 	Ack   bool // the handler writes a marker element to the encoder
+
+	// Redispatch: the handler (registered for the forwarding wrapper) reads the
+	// whole stanza and hands the stanza embedded in the wrapper to the same
+	// multiplexer again while its own dispatch is still in progress.
+	Redispatch bool `json:",omitempty"`
 }
 
 // Tag identifies the registration in reports.
@@ -45,6 +50,7 @@ type El struct {
 	Text         string // character data before the children
 	Kids         []*El
 	Sep          string // white space written before each child and before the end tag
+	Embedded     bool   `json:",omitempty"` // a stanza inside a forwarding wrapper (has its own id and type)
 }
 
 // Case is one generated scenario.
@@ -54,7 +60,41 @@ type Case struct {
 	Pats     []Pat
 	Els      []*El
 	Served   bool // also run through a served session
+
+	// Concurrent: also dispatch the elements on one shared multiplexer from
+	// one goroutine each, the handlers meeting at a barrier so that the
+	// dispatches overlap.
+	Concurrent bool `json:",omitempty"`
 }
+
+const nsFwd = "urn:verif:fwd"
+
+// embedded returns the stanzas embedded in forwarding wrappers below e.
+func (e *El) embedded() []*El {
+	var out []*El
+	for _, k := range e.Kids {
+		if k.Space == nsFwd && k.Local == "forwarded" {
+			for _, g := range k.Kids {
+				if g.Embedded {
+					out = append(out, g)
+				}
+			}
+		}
+	}
+	return out
+}
+
+// all lists the top-level elements followed by the embedded stanzas; the
+// position in the list is the number in the element's id.
+func (c *Case) all() []*El {
+	out := append([]*El(nil), c.Els...)
+	for _, e := range c.Els {
+		out = append(out, e.embedded()...)
+	}
+	return out
+}
+
+func (c *Case) hasForward() bool { return len(c.all()) > len(c.Els) }
 
 func esc(s string) string {
 	var sb strings.Builder
@@ -72,7 +112,7 @@ func (e *El) raw(sb *strings.Builder, parentNS string, top bool) {
 	} else if e.Space != parentNS {
 		fmt.Fprintf(sb, " xmlns='%s'", esc(e.Space))
 	}
-	if top && isStanzaLocal(e.Local) && !e.NoType {
+	if (top || e.Embedded) && isStanzaLocal(e.Local) && !e.NoType {
 		fmt.Fprintf(sb, " type='%s'", esc(e.Type))
 	}
 	if e.ID != "" {
@@ -393,6 +433,17 @@ func genCase(r *rand.Rand) *Case {
 	for i, n := 0, r.Intn(4); i < n; i++ {
 		add(genPat(r, "top", "", tnames[r.Intn(len(tnames))]))
 	}
+	// forwarding: a handler that re-dispatches an embedded stanza through the
+	// same multiplexer (the way forwarded / carbon-copied stanzas are handled)
+	var fwdFocus []kt
+	if r.Intn(5) == 0 {
+		for _, f := range focus {
+			if f.k != "iq" {
+				fwdFocus = append(fwdFocus, f)
+				add(Pat{Kind: f.k, Type: f.t, Space: nsFwd, Local: "forwarded", Read: -1, Redispatch: true})
+			}
+		}
+	}
 	// incoming elements
 	for i, n := 0, 1+r.Intn(3); i < n; i++ {
 		switch x := r.Intn(20); {
@@ -430,6 +481,35 @@ func genCase(r *rand.Rand) *Case {
 			e.NoXMLNS = true
 		}
 	}
+	if len(fwdFocus) > 0 {
+		next := len(c.Els)
+		for _, e := range c.Els {
+			for _, f := range fwdFocus {
+				if e.Local != f.k || effectiveType(e) != f.t || e.Space != elemNS || r.Intn(3) == 0 {
+					continue
+				}
+				in := fwdFocus[r.Intn(len(fwdFocus))]
+				if r.Intn(4) == 0 {
+					in.k = []string{"message", "presence"}[r.Intn(2)]
+					in.t = kindTypes[in.k][r.Intn(len(kindTypes[in.k]))]
+				}
+				emb := genStanza(r, in.k, in.t, elemNS, next)
+				emb.Embedded = true
+				next++
+				w := &El{Space: nsFwd, Local: "forwarded", Kids: []*El{emb}, Sep: e.Sep}
+				at := r.Intn(len(e.Kids) + 1)
+				e.Kids = append(e.Kids[:at], append([]*El{w}, e.Kids[at:]...)...)
+				break
+			}
+		}
+		if c.hasForward() {
+			// the inner and outer dispatches share one encoder: keep it silent
+			for i := range c.Pats {
+				c.Pats[i].Ack = false
+			}
+		}
+	}
+	c.Concurrent = !c.hasForward() && r.Intn(8) == 0
 	c.Served = r.Intn(12) == 0
 	return c
 }
